@@ -197,7 +197,8 @@ class BufScript:
             r = self.rng.random()
             if r < 0.30:
                 k = self.rng.choice("nnsyz"); out.append((k, self.rng.randrange(self.nf)))
-                if k == "n": out.append((self.rng.choice("wh"), 0))
+                # (not always made current at once: a buffer may be created ahead of its use)
+                if k == "n" and self.rng.random() < 0.7: out.append((self.rng.choice("wh"), 0))
             elif r < 0.45: out.append((self.rng.choice("wh"), self.anybuf()))
             elif r < 0.60: out.append(("j", 0))
             elif r < 0.70: out.append(("f", self.anybuf()))
@@ -238,7 +239,10 @@ class BufScript:
             elif r < 0.36: ops += [("k", 0), ("T", 0)]      # include pattern: pop back to the including buffer
             elif r < 0.50: ops += [("i", self.rng.randrange(self.nf)), ("T", 0)]
             elif r < 0.72: ops += [("n", self.rng.randrange(self.nf)), ("w", 0), ("T", 0)]
-            elif r < 0.88: ops += [(self.rng.choice("syz"), self.rng.randrange(self.nf)), ("T", 0)]
+            elif r < 0.80: ops += [(self.rng.choice("syz"), self.rng.randrange(self.nf)), ("T", 0)]
+            elif r < 0.90:
+                k = self.rng.randrange(self.nf)
+                ops += [("e", k), ("r", k), ("T", 0)]            # reopen a source and restart on it
             else:
                 # the manual's pattern: delete the exhausted buffer, then install the next source
                 ops += [("J", 0), (self.rng.choice("sy"), self.rng.randrange(self.nf)), ("T", 0)]
@@ -249,8 +253,12 @@ class BufScript:
         ops = [("-", 0)]
         for _ in range(n):
             r = self.rng.random()
-            if r < 0.3: ops += [("c", 0), ("-", 0)]
-            elif r < 0.6: ops += [("i", self.rng.randrange(self.nf)), ("c", 0), ("-", 0)]
-            elif r < 0.85: ops += [("r", self.rng.randrange(self.nf)), ("c", 0), ("-", 0)]
+            if r < 0.25: ops += [("c", 0), ("-", 0)]
+            elif r < 0.5: ops += [("i", self.rng.randrange(self.nf)), ("c", 0), ("-", 0)]
+            elif r < 0.7: ops += [("r", self.rng.randrange(self.nf)), ("c", 0), ("-", 0)]
+            elif r < 0.88:
+                # the same stream object is opened again and handed to the scanner once more
+                k = self.rng.randrange(self.nf)
+                ops += [("e", k), ("r", k), ("c", 0), ("-", 0)]
             else: ops += [("-", 0)]
         return ops
